@@ -1,10 +1,13 @@
-(* Not a check: marks the generated pairs whose nested configuration lies in the scope of the
-   whole-run inlining theorems of Props/C09.v -- some top-level system simulation of devices can be
-   replaced by its contents, the other top-level components being devices or system simulations of
-   any depth ([shape_at], decided for the fuel the model runs with).  Kept apart from
-   Oracle/SimOracle.v so that the oracles do not depend on the proof files. *)
-From TV Require Import Base Model.Wiring Model.Ticker Model.Component Model.Sim Oracle.SimCheck Oracle.SimOracle
-  Proofs.InlineScopeP.
+(* Marks the generated pairs whose nested configuration lies in the scope of the whole-run inlining
+   theorems of Props/C09.v: [in_inline_scope_general] -- some top-level system simulation can be
+   replaced by its contents, the other components being devices or system simulations of any depth
+   ([shape_at], decided for the fuel the model runs with); [in_flatten_all_scope] -- the whole nesting,
+   of any depth, is flattened by inlining one top-level system simulation after the other
+   ([scope_all]).  One check: inside that scope the result of [inline_all] IS the Coq flattening the
+   flat run was generated from (74).  Kept apart from Oracle/SimOracle.v so that the other oracles do
+   not depend on the proof files. *)
+From TV Require Import Base Model.Wiring Model.Ticker Model.Component Model.Sim Model.Inline Oracle.SimCheck Oracle.SimOracle
+  Proofs.InlineScopeP Proofs.InlineAllP.
 Open Scope Z_scope.
 
 Definition in_inline_scope_general (p : pair_case) : list Z :=
@@ -12,3 +15,41 @@ Definition in_inline_scope_general (p : pair_case) : list Z :=
   if existsb (fun ck : comp * ckind => match shape_at cfg 8 (fst ck) with Some _ => true | None => false end)
              (l_order (level_of cfg 1%positive))
   then [1] else [].
+
+Definition has_system (cfg : config) : bool :=
+  match first_sys (l_order (level_of cfg 1%positive)) with Some _ => true | None => false end.
+
+(* nestings (at least one system simulation) which [inline_all] provably flattens *)
+Definition in_flatten_all_scope (p : pair_case) : list Z :=
+  let cfg := sc_cfg (fst p) in
+  if has_system cfg && scope_all 12 8 [] cfg then [1] else [].
+
+(* ... of depth two or more *)
+Definition deeper_than_one (cfg : config) : bool :=
+  existsb (fun ck : comp * ckind =>
+             match snd ck with
+             | KDev => false
+             | KSys lv => negb (forallb is_dev (l_order (level_of cfg lv)))
+             end) (l_order (level_of cfg 1%positive)).
+Definition in_flatten_all_scope_deep (p : pair_case) : list Z :=
+  let cfg := sc_cfg (fst p) in
+  if deeper_than_one cfg && scope_all 12 8 [] cfg then [1] else [].
+
+(* ... with the interrupts of the case (all of top-level components) kept outside every inlined system *)
+Definition in_flatten_all_scope_stim (p : pair_case) : list Z :=
+  let c := fst p in
+  let cfg := sc_cfg c in
+  if has_system cfg && nonempty (sc_stim c)
+     && forallb (fun st : stimulus => match snd st with [] => true | _ => false end) (sc_stim c)
+     && scope_all 12 8 (map (fun st : stimulus => snd (fst (fst st))) (sc_stim c)) cfg
+  then [1] else [].
+
+(* 74: in the scope of the any-depth theorem the iterated inlining is not the flattening *)
+Definition check_inline_all_is_flatten (p : pair_case) : list Z :=
+  let cfg := sc_cfg (fst p) in
+  if scope_all 12 8 [] cfg then
+    let f := inline_all 12 cfg in
+    if conns_set_eqb (flat_conns cfg) (l_conns (level_of f 1%positive))
+       && list_eqb Pos.eqb (flat_order 40 cfg 1%positive) (map fst (l_order (level_of f 1%positive)))
+    then [] else [74]
+  else [].
